@@ -78,6 +78,8 @@ def supported(cfg, world, t, top=True, _seen=None) -> bool:
                 return False
             if k == "tup" and not all(isinstance(y, str) and y in PRIMS for y in x[1]):
                 return False
+        if k in ("cls", "td") and world["classes"][x[1]].get("recursive") == "self" and (not cfg["gen"] or cfg["tuple"]):
+            return False  # typing.Self is resolved by the generated dict hooks only (Converter, dict strategy)
         if k in ("cls", "td") and x[1] not in _seen:
             _seen.add(x[1])
             for f in world["classes"][x[1]]["fields"]:
@@ -87,8 +89,9 @@ def supported(cfg, world, t, top=True, _seen=None) -> bool:
 
 
 class Gen:
-    def __init__(self, rng: random.Random, max_depth=3, big=False, no_any=False):
+    def __init__(self, rng: random.Random, max_depth=3, big=False, no_any=False, recursive=True):
         self.rng = rng
+        self.recursive = recursive  # generate self-referential classes (typing.Self)
         self.max_depth = max_depth
         self.big = big
         self.no_any = no_any  # no Any-typed positions and no untyped fields (round-trip scope)
@@ -170,6 +173,25 @@ class Gen:
                 if r.random() < 0.15:
                     f["kw_only"] = True
             fields.append(f)
+        recursive = None
+        if self.recursive and fields and r.random() < 0.3:
+            # a recursive class: one attribute refers to the class itself (realised with typing.Self) through an
+            # Optional / sequence / mapping, so that finite values exist
+            me = ("td" if kind == "td" else "cls", ci)
+            shape = r.choice([("opt", me), ("list", me), ("dict", "str", me), ("opt", ("list", me)), ("tup*", me),
+                              ("dict", "str", ("opt", me)), ("seq", ("opt", me)), ("map", "int", me)])
+            f = r.choice(fields)
+            f["ty"] = shape
+            f["dflt"] = None
+            f["init"] = True
+            # spelled as typing.Self, or as a forward reference by name (string annotation)
+            recursive = r.choice(["self", "name"])
+        if kind == "attrs":
+            for f in fields:
+                # an attrs field converter that is the identity: semantically invisible, but the hook generators
+                # take the `attrib.converter is not None` paths of find_structure_handler for it
+                if r.random() < 0.12:
+                    f["idconv"] = True
         if kind != "td":
             # positional parameters: required before defaulted; kw_only ones may sit anywhere
             pos = [f for f in fields if not f["kw_only"] and f["init"]]
@@ -179,7 +201,7 @@ class Gen:
             for f in others:
                 out.insert(r.randint(0, len(out)), f)
             fields = out
-        return {"kind": kind, "frozen": frozen, "fields": fields, "slots": r.random() < 0.5}
+        return {"kind": kind, "frozen": frozen, "fields": fields, "slots": r.random() < 0.5, "recursive": recursive}
 
     # ------------------------------------------------------------ types
     def type(self, w, depth, max_cls=None, field=False, hashable=False, allow_any=True):
@@ -257,6 +279,8 @@ class Gen:
         if k == "lit":
             return r.choice(t[1])
         n = r.randint(0, 3 if depth > 0 else 1)
+        if depth < -1:
+            n = 0  # recursive classes: bottom out
         if k in ("list", "seq", "mseq"):
             return ("l", [self.value(w, t[1], depth - 1, any_stable) for _ in range(n)])
         if k == "tup*":
@@ -280,7 +304,7 @@ class Gen:
                     kvs.append((kk, self.value(w, t[2], depth - 1, any_stable)))
             return ("d", kvs)
         if k == "opt":
-            return ("N",) if r.random() < 0.3 else self.value(w, t[1], depth, any_stable)
+            return ("N",) if (r.random() < 0.3 or depth < -1) else self.value(w, t[1], depth, any_stable)
         if k in ("new", "ann", "final", "alias"):
             return self.value(w, t[1], depth, any_stable)
         if k == "cls":
